@@ -410,6 +410,44 @@ def run(check, repo: Repo) -> None:
             ok = False
     check.decide(ok, "C07-R4", "radon_torch: align_corners=True is paired with the 2·x/(N−1) − 1 normalisation", "", mod.line(g),
                  fail_detail="align_corners / normalisation mismatch: integer pixel positions are not sampled exactly")
+    # rotation matrix: the linear part must equal the reference's R[:2, :2]
+    rref = ref_fns["radon"]
+    Rdef = [n.value for n in ast.walk(rref) if isinstance(n, ast.Assign) and dotted(n.targets[0]) == "R"]
+    rot = [d for d in definitions(rad, "rot") if isinstance(d, ast.AST) and isinstance(d, ast.Call) and (call_name(d) or "").endswith("tensor")]
+
+    def mat2(e, cos_names, sin_names):
+        lst = e.args[0] if isinstance(e, ast.Call) and e.args else None
+        if not isinstance(lst, ast.List) or len(lst.elts) < 2:
+            return None
+        out = []
+        for row in lst.elts[:2]:
+            if not isinstance(row, ast.List) or len(row.elts) < 2:
+                return None
+            r_ = []
+            for x in row.elts[:2]:
+                sign, y = 1, x
+                if isinstance(y, ast.UnaryOp) and isinstance(y.op, ast.USub):
+                    sign, y = -1, y.operand
+                t_ = unparse(y)
+                if t_ in cos_names:
+                    r_.append((sign, "c"))
+                elif t_ in sin_names:
+                    r_.append((sign, "s"))
+                else:
+                    return None
+            out.append(tuple(r_))
+        return tuple(out)
+    m_ref = mat2(Rdef[0], {"cos_a"}, {"sin_a"}) if Rdef else None
+    m_t = mat2(rot[0], {"torch.cos(angle_rad)"}, {"torch.sin(angle_rad)"}) if rot else None
+    if m_ref is None:
+        raise AnalysisError("reference radon: rotation matrix R not understood")
+    if m_t is None:
+        raise AnalysisError("radon_torch: rotation matrix `rot` not understood")
+    check.decide(m_t == m_ref, "C07-R4", "radon_torch: the sampling grid is rotated with the reference's matrix [[cos, sin], [−sin, cos]]", str(m_t), mod.line(rot[0]),
+                 fail_detail=f"rot = {m_t}, reference R[:2,:2] = {m_ref}: a rotation combined with a reflection about N//2 drops one image row for even N "
+                             f"(sinograms deviate by several % when the disc rim carries signal; the 0° projection is not the column sum)")
+    ang = [unparse(d) for d in definitions(rad, "angle_rad") if isinstance(d, ast.AST)]
+    check.decide(ang == ["torch.deg2rad(angle)"], "C07-R4", "radon_torch: angles are given in degrees as in the reference", str(ang), mod.line(rad), fail_detail=str(ang))
     cen = [unparse(d) for d in definitions(rad, "center") if isinstance(d, ast.AST)]
     ok = "N // 2" in cen and "coords = torch.stack((grid_x - center, grid_y - center), dim=-1)" in unparse(rad)
     check.decide(ok, "C07-R4", "radon_torch: rotation centre N//2 and (x, y) = (col, row) coordinate order for grid_sample", str(cen), mod.line(rad),
